@@ -44,6 +44,7 @@ pub fn profile(name: &str) -> GenCfg {
             g.w_ops = [25, 10, 12, 3, 2, 48];
         }
         "c09" => {
+            g.cross_prefix_pct = 50;
             g.nclients = (3, 4);
             g.w_ops = [40, 14, 28, 12, 2, 4];
             g.nonnil_base_pct = 20;
@@ -86,6 +87,7 @@ pub fn main(args: &Args) -> i32 {
     let out_path = args.get("out", "/dev/stdout");
     let first = args.num("first", 0) as usize;
     let cfgs = args.get("cfgs", "mixed");
+    let proj = args.get("proj", "0") == "1";
     let f = std::fs::File::create(&out_path).expect("cannot create output file");
     let mut w = BufWriter::new(f);
     let code = actix_rt::System::new().block_on(async {
@@ -111,7 +113,7 @@ pub fn main(args: &Args) -> i32 {
                 for c in &hist.clients {
                     known.note(*c);
                 }
-                let mut rn = Runner { sut: &mut sut, entry: su.entry, known, out: &mut out, dump_every_op: dump, honour_reopen: su.reopen, opidx: 0, dead: false };
+                let mut rn = Runner { sut: &mut sut, entry: su.entry, known, out: &mut out, dump_every_op: dump, honour_reopen: su.reopen, opidx: 0, dead: false, resolved: vec![] };
                 if dump {
                     rn.dump_all();
                 }
@@ -122,7 +124,38 @@ pub fn main(args: &Args) -> i32 {
                     rn.dump_all();
                 }
                 let dead = rn.dead;
+                let resolved = rn.resolved.clone();
                 out.line(&format!("end h={hi} setup={} dead={}", su.name, dead as u8));
+                if proj && !dead {
+                    // two-run non-interference: each client's projection alone on a fresh backend,
+                    // quoting the same concrete foreign ids as in the full run
+                    for (ci, c) in hist.clients.iter().enumerate() {
+                        let mut sut = Sut::new(su.kind, days, versions, None).await;
+                        out.line(&format!(
+                            "run h={hi} setup={} proj={ci} backend={} entry={} days={days} versions={versions} clients={}",
+                            su.name,
+                            if su.kind == BackendKind::Mem { "mem" } else { "sql" },
+                            if su.entry == Entry::Http { "http" } else { "lib" },
+                            hist.clients.iter().map(|c| c.to_string()).collect::<Vec<_>>().join(",")
+                        ));
+                        let _ = c;
+                        let mut known = Known::new(hist.clients.clone());
+                        for c in &hist.clients {
+                            known.note(*c);
+                        }
+                        let mut rn = Runner { sut: &mut sut, entry: su.entry, known, out: &mut out, dump_every_op: false, honour_reopen: false, opidx: 0, dead: false, resolved: vec![] };
+                        for (i, op) in hist.ops.iter().enumerate() {
+                            if op.client() != Some(ci) {
+                                continue;
+                            }
+                            let conc = resolved.iter().find(|(k, _)| *k == i).map(|(_, u)| *u);
+                            rn.opidx = i;
+                            rn.run_op(&op.pinned(conc)).await;
+                        }
+                        let dead = rn.dead;
+                        out.line(&format!("end h={hi} setup={} proj={ci} dead={}", su.name, dead as u8));
+                    }
+                }
             }
         }
         0
